@@ -223,8 +223,15 @@ func Garbage(kind string, valid []byte, r *rand.Rand) []byte {
 		b := append([]byte(nil), valid...)
 		b[0] = 0x60
 		return b
-	case "random2048":
-		b := make([]byte, 2048)
+	case "random2048", "random2047", "random8192":
+		n := 2048
+		switch {
+		case strings.HasSuffix(kind, "2047"):
+			n = 2047
+		case strings.HasSuffix(kind, "8192"):
+			n = 8192
+		}
+		b := make([]byte, n) // around and above the emulator's 2048-octet receive buffers
 		r.Read(b)
 		b[0] = 0x7f
 		return b
@@ -241,7 +248,7 @@ func Garbage(kind string, valid []byte, r *rand.Rand) []byte {
 	}
 }
 
-var GarbageKinds = []string{"garbage:one-octet", "garbage:random32", "garbage:truncated-half", "garbage:choice3", "garbage:random2048", "garbage:bad-length", "garbage:zeros", "garbage:truncated-1"}
+var GarbageKinds = []string{"garbage:one-octet", "garbage:random32", "garbage:truncated-half", "garbage:choice3", "garbage:random2048", "garbage:bad-length", "garbage:zeros", "garbage:truncated-1", "garbage:random2047", "garbage:random8192"}
 
 func minInt(a, b int) int {
 	if a < b {
